@@ -18,7 +18,8 @@ def registry():
 
 
 def run_groups(groups, tier, timeout=3000):
-    hs = [h for h in registry() if h["group"] in groups and (tier == "thorough" or h.get("tier", "quick") == "quick")]
+    # a harness belongs to its `group` and to every group listed in `also_groups` (one fact several properties rest on)
+    hs = [h for h in registry() if (h["group"] in groups or any(g in groups for g in h.get("also_groups", []))) and (tier == "thorough" or h.get("tier", "quick") == "quick")]
     return run_harnesses(hs, timeout)
 
 
